@@ -40,6 +40,11 @@ class CallMixin:
     def new_object(self, cls, st):
         r = self.alloc(st)
         st.assume(self.eng.cls_of(r) == self.eng.class_ids[cls])
+        dt = self.eng.class_dictof(cls)
+        if dt is not None:
+            # a new instance of a dict subclass is an empty dict
+            kh = self.eng.k_dhas(dt.k, dt.v)
+            st.seth(kh, z3.Store(st.h(kh), r, z3.K(dt.k.sort(), z3.BoolVal(False))))
         return SV(T.Ref(cls), r)
 
     # ------------------------------------------------------------------ list primitives (code mode, heap)
@@ -301,18 +306,32 @@ class CallMixin:
             return self.call_contract(self.eng.prop.contracts[self.c.calls[fsrc]], args, kw, st, n)
         raise Unsupported('call of %s' % ast.unparse(f))
 
-    def args_of(self, n, st):
+    def args_of(self, n, st, cc=None):
         for a in n.args:
             if isinstance(a, ast.Starred):
                 raise Unsupported('*args call')
+        if cc is not None:
+            # arguments of parameters declared 'opaque' (the contract does not depend on them) need not be expressible
+            names = list(cc.params)
+            out = []
+            for i, a in enumerate(n.args):
+                if i < len(names) and str(cc.params[names[i]]).split('=')[0].strip() == 'opaque':
+                    try:
+                        out.append(self.ev(a, st))
+                    except Unsupported:
+                        out.append(SV(T.Opaque, z3.IntVal(0)))
+                else:
+                    out.append(self.ev(a, st))
+            return out, {k.arg: self.ev(k.value, st) for k in n.keywords}
         return [self.ev(a, st) for a in n.args], {k.arg: self.ev(k.value, st) for k in n.keywords}
 
     def call_name(self, name, n, st):
         P = self.eng.prop
         src = ast.unparse(n.func)
         if src in self.c.calls:
-            args, kw = self.args_of(n, st)
-            return self.call_contract(P.contracts[self.c.calls[src]], args, kw, st, n)
+            cc = P.contracts[self.c.calls[src]]
+            args, kw = self.args_of(n, st, cc)
+            return self.call_contract(cc, args, kw, st, n)
         if name == 'old':
             if st.old is None:
                 raise ContractError('old() without old state')
@@ -538,9 +557,39 @@ class CallMixin:
         self.assume_class(r, st)
         return r
 
+    def dict_iter_source(self, node, st):
+        """(dict value, mode) when `node` is D.keys() / D.values() / D.items() on a builtin dict (or the builtin behaviour
+        of a dict subclass: dict.keys(X), or X.keys() without an overriding contract); None otherwise."""
+        if not (isinstance(node, ast.Call) and isinstance(node.func, ast.Attribute) and node.func.attr in ('items', 'values', 'keys')):
+            return None
+        f = node.func
+        if isinstance(f.value, ast.Name) and f.value.id == 'dict' and 'dict' not in st.locals and len(node.args) == 1:
+            x = self.ev(node.args[0], st)
+            dv = x if isinstance(x.t, T.Dict) else self.dictview(x)
+            if dv is None:
+                return None
+            self.nonnull(x, st)
+            return dv, f.attr
+        if node.args:
+            return None
+        if ast.unparse(f) in self.c.calls:
+            return None
+        d = self.ev(f.value, st)
+        if isinstance(d.t, T.Dict):
+            self.nonnull(d, st)
+            return d, f.attr
+        if isinstance(d.t, T.Ref) and d.t.cls != '$any' and self.eng.find_method(d.t.cls, f.attr) is None and self.dictview(d) is not None:
+            self.nonnull(d, st)
+            return self.dictview(d), f.attr
+        return None
+
     def bi_list(self, n, st):
         if not n.args:
             raise Unsupported('list() without hint')
+        if not self.spec:
+            ds = self.dict_iter_source(n.args[0], st)
+            if ds is not None:
+                return self.new_list_from_seq(self.dict_snapshot(ds[0], ds[1], st), st)
         v = self.ev(n.args[0], st)
         if isinstance(v.t, T._Str):
             k = z3.Int(fresh_name('k'))
@@ -740,6 +789,24 @@ class CallMixin:
         v = self.ev(n.args[0], st)
         return SV(T.Bool, z3.And(v.z > 0, v.z <= st.h(('alloc',))))
 
+    def bi_older(self, n, st):
+        """spec (ghost): object a was allocated before object b (allocation order of the two references)."""
+        a, b = self.ev(n.args[0], st), self.ev(n.args[1], st)
+        return SV(T.Bool, z3.And(a.z > 0, a.z < b.z))
+
+    def bi_refid(self, n, st):
+        """spec (ghost): allocation rank of an object -- a termination measure for recursion along older-pointing links."""
+        return SV(T.Int, self.ev(n.args[0], st).z)
+
+    def bi_boundmethod(self, n, st):
+        """spec: the bound method object obj.name (value of an attribute read that names a method)."""
+        o = self.ev(n.args[0], st)
+        return self.bound_method(o, n.args[1].value)
+
+    def bound_method(self, o, name):
+        f = z3.Function('boundmethod', z3.IntSort(), z3.StringSort(), z3.IntSort())
+        return SV(T.Opaque, f(o.z, z3.StringVal(name)))
+
     def bi_isnone(self, n, st):
         v = self.ev(n.args[0], st)
         return SV(T.Bool, self.identical(v, none_sv()))
@@ -779,6 +846,35 @@ class CallMixin:
             if c is not None:
                 args, kw = self.args_of(n, st)
                 return self.call_contract(c, args, kw, st, n)
+        if isinstance(f.value, ast.Name) and f.value.id == 'dict' and 'dict' not in st.locals and n.args:
+            # dict.method(self, ...): the builtin dict behaviour of an instance of a declared dict subclass
+            recv = self.ev(n.args[0], st)
+            dv = self.dictview(recv)
+            if dv is not None:
+                self.nonnull(recv, st)
+                rest = [self.ev(a, st) for a in n.args[1:]]
+                if f.attr == '__getitem__':
+                    return self.getitem(dv, rest[0], st, n)
+                if f.attr == '__contains__':
+                    return SV(T.Bool, self.contains(dv, rest[0], st))
+                if f.attr == '__setitem__':
+                    self.dict_set(dv, rest[0], rest[1], st)
+                    return none_sv()
+                if f.attr in ('__init__', 'update') and len(rest) == 1 and isinstance(rest[0].t, T.Dict) and rest[0].t.k == dv.t.k:
+                    # dict.__init__(self, d) / dict.update(self, d): every item of d is stored into self
+                    src_ = rest[0]
+                    self.nonnull(src_, st)
+                    dt = dv.t
+                    kh, kv = self.eng.k_dhas(dt.k, dt.v), self.eng.k_dval(dt.k, dt.v)
+                    sh = self.rd(st, self.eng.k_dhas(src_.t.k, src_.t.v), src_.z)
+                    sv_ = self.rd(st, self.eng.k_dval(src_.t.k, src_.t.v), src_.z)
+                    has, val = self.rd(st, kh, dv.z), self.rd(st, kv, dv.z)
+                    kk = z3.Const(fresh_name('k'), dt.k.sort())
+                    st.seth(kh, z3.Store(st.h(kh), dv.z, z3.Lambda([kk], z3.Or(z3.Select(has, kk), z3.Select(sh, kk)))))
+                    st.seth(kv, z3.Store(st.h(kv), dv.z, z3.Lambda([kk], z3.If(z3.Select(sh, kk), z3.Select(sv_, kk), z3.Select(val, kk)))))
+                    return none_sv()
+                n2 = ast.copy_location(ast.Call(func=n.func, args=n.args[1:], keywords=n.keywords), n)
+                return self.dict_method(dv, f.attr, n2, st)
         recv = self.ev(f.value, st)
         meth = f.attr
         t = recv.t
@@ -801,6 +897,9 @@ class CallMixin:
         if isinstance(t, T.Dict):
             self.nonnull(recv, st)
             return self.dict_method(recv, meth, n, st)
+        if self.dictview(recv) is not None:
+            self.nonnull(recv, st)
+            return self.dict_method(self.dictview(recv), meth, n, st)
         if self.is_listlike(recv):
             if not isinstance(t, T.Seq):
                 self.nonnull(recv, st)
